@@ -4,7 +4,7 @@
    holds, meshes, names) is proved for the model of the code, for every size; the DFT itself
    (scipy's) is an abstract transform over any commutative ring with a root of unity w
    (hypotheses: w^n = 1 and sum_k w^(d k) = 0 for 0 < d < n). *)
-From DF Require Import Prelude Constants_gen Region Mesh Fft C11_shift C11_kmesh C11_names C11_dft C11_dftn C11_arrange C11_shape C11_mesh C11_imesh C11_roundtrip.
+From DF Require Import Prelude Constants_gen Region Mesh Fft C11_shift C11_kmesh C11_names C11_dft C11_dftn C11_arrange C11_shape C11_mesh C11_imesh C11_roundtrip Check_C11 CheckSound C11_sound.
 From Coq Require Import ZArithRing.
 Open Scope Q_scope.
 
@@ -350,3 +350,21 @@ Theorem C11_rename_roundtrip : forall (vs : list string) (mp : list (string * st
    (Some vs, flat_map (fun v => match assoc v mp with Some d => [(v, d)] | None => [] end) vs)).
 Proof. exact (fun vs mp => conj (rename_forward vs mp) (rename_roundtrip vs mp)). Qed.
 Print Assumptions C11_rename_roundtrip.
+
+(* ---- the tie, proved for the exact comparisons: an accepted shard case certifies that the OBSERVED
+   labels / mapping (resp. counts, dimension names and units of the observed k-mesh) are the model's *)
+Theorem C11_check_names_sound : forall inverse vd mp v' m',
+  check_C11 (CNames inverse vd mp (Some (v', m'))) = true ->
+  rename_checked inverse vd mp = OK (v', m').
+Proof. exact check_names_sound. Qed.
+Print Assumptions C11_check_names_sound.
+Theorem C11_check_names_reject_sound : forall inverse vd mp,
+  check_C11 (CNames inverse vd mp None) = true -> exists e, rename_checked inverse vd mp = Err e.
+Proof. exact check_names_reject_sound. Qed.
+Print Assumptions C11_check_names_reject_sound.
+Theorem C11_check_kmesh_sound : forall p1 p2 n_ ds us rfft lo hi k ds' us',
+  check_C11 (CMeshF p1 p2 n_ ds us rfft (Some (lo, hi, k, ds', us'))) = true ->
+  exists m km, build p1 p2 n_ ds us = OK m /\ mesh_fftn m rfft = OK km /\
+    n km = k /\ dims (reg km) = ds' /\ units (reg km) = us'.
+Proof. exact check_meshf_sound. Qed.
+Print Assumptions C11_check_kmesh_sound.
